@@ -9,6 +9,8 @@
 //!        recs=<record>,<record>,.. | <history line>`
 //!   record = `E<eid>.<pid>.<seq>.<sid>.<ver>.<tx>.<flag>` | `C<tx>.<count>`  (the sealed segment's data.evts, read with
 //!   the real BucketSegmentReader; tx = first-occurrence index of the transaction id)
+//!   `file=d st=emptydir`: instead of an index file state, an empty directory for the next segment exists (the process
+//!   died inside the rollover right after creating it)
 //! Observed: `open=ok id=<found>/<n> st=<found>/<n> pt=<found>/<n> oth=<ok|miss<k>>` (+ ` !<first failures>`) | `open=err:<message>`
 #[path = "../../cstore/src/hist.rs"]
 mod hist;
@@ -269,6 +271,20 @@ fn run_history(rt: &tokio::runtime::Runtime, h: Hist) -> HistRun {
 
 fn run_mutation(rt: &tokio::runtime::Runtime, hr: &HistRun, si: usize, kind: char, st: &St, out: &mut common::Out) {
     let sg = &hr.sealed[si];
+    if kind == 'd' {
+        // the process died inside the rollover, right after the next segment's directory was created (no file in it yet)
+        let segs = sg.dir.parent().unwrap();
+        let max: u32 = std::fs::read_dir(segs).map(|r| r.flatten().filter_map(|e| e.file_name().to_string_lossy().parse::<u32>().ok()).max().unwrap_or(0)).unwrap_or(0);
+        let d = segs.join(format!("{:010}", max + 1));
+        std::fs::create_dir(&d).unwrap();
+        let others: Vec<SegEv> = hr.sealed.iter().enumerate().filter(|(i, _)| *i != si).flat_map(|(_, s)| s.evs.iter().cloned()).collect();
+        let obs = rt.block_on(observe(&hr.h, &hr.db_dir, sg, &others));
+        let _ = std::fs::remove_dir_all(&d);
+        let case = format!("c06 sg={}/{} file=d st=emptydir lay=0:0:0 recs={} | {}", sg.bucket, sg.seg, sg.recs, hr.line);
+        out.case(&case, &obs);
+        out.flush();
+        return;
+    }
     let path = sg.dir.join(file_name(kind));
     let orig = match std::fs::read(&path) { Ok(b) => b, Err(_) => return };
     let lay = layout(kind, &orig);
@@ -290,8 +306,26 @@ fn run_mutation(rt: &tokio::runtime::Runtime, hr: &HistRun, si: usize, kind: cha
     out.flush();
 }
 
+/// Every Database opened in this process leaves a few file descriptors behind (reader-pool threads keep their
+/// segment files); a long run needs more than the default limit.
+fn raise_nofile_limit() {
+    unsafe {
+        let mut lim = libc::rlimit { rlim_cur: 0, rlim_max: 0 };
+        if libc::getrlimit(libc::RLIMIT_NOFILE, &mut lim) != 0 { return; }
+        for want in [1_048_576u64, 524_288, 262_144, 131_072, 65_536] {
+            if want <= lim.rlim_cur { return; }
+            let l = libc::rlimit { rlim_cur: want, rlim_max: want.max(lim.rlim_max) };
+            if libc::setrlimit(libc::RLIMIT_NOFILE, &l) == 0 { return; }
+        }
+        let l = libc::rlimit { rlim_cur: lim.rlim_max, rlim_max: lim.rlim_max };
+        libc::setrlimit(libc::RLIMIT_NOFILE, &l);
+    }
+}
+
 fn main() {
     if std::env::var("SV_PANICS").is_err() { common::silence_panics(); }
+    raise_nofile_limit();
+    if std::env::var("SV_TIMING").is_ok() { unsafe { let mut lim = libc::rlimit { rlim_cur: 0, rlim_max: 0 }; libc::getrlimit(libc::RLIMIT_NOFILE, &mut lim); eprintln!("RLIMIT_NOFILE {} {}", lim.rlim_cur, lim.rlim_max); } }
     let a = common::args();
     let mut out = common::Out::new();
     let rt = tokio::runtime::Builder::new_multi_thread().worker_threads(2).enable_all().build().unwrap();
@@ -317,39 +351,66 @@ fn main() {
         }
         return;
     }
-    let thorough = a.tier == "thorough";
-    let budget: usize = std::env::var("SV_CASES").ok().and_then(|x| x.parse().ok()).unwrap_or(if thorough { 4000 } else { 300 });
+    let thorough = a.tier == "thorough" || (a.tier == "gen" && a.rest.first().map(|x| x == "thorough").unwrap_or(false));
     let per_hist = if thorough { 60 } else { 12 };
-    let mut rng = Rng::new(a.seed ^ 0xC06);
-    let mut n = 0;
-    let mut hists = 0;
-    let secs: u64 = std::env::var("SV_BUDGET_S").ok().and_then(|x| x.parse().ok()).unwrap_or(if thorough { 840 } else { 55 });
-    let t0 = std::time::Instant::now();
-    while n < budget && hists < 4 * budget && t0.elapsed().as_secs() < secs {
-        hists += 1;
-        let mut r = rng.fork();
-        let h = gen_history(&mut r, thorough);
-        let th = std::time::Instant::now();
-        let hr = run_history(&rt, h);
-        if std::env::var("SV_TIMING").is_ok() { eprintln!("history: {} ops, {} sealed segments, {:?}", hr.h.ops.len(), hr.sealed.len(), th.elapsed()); }
-        if hr.sealed.is_empty() { let _ = std::fs::remove_dir_all(&hr.root); continue; }
-        // all (segment, file, state) of this history, shuffled; structural states first
-        let mut muts: Vec<(usize, char, St)> = Vec::new();
-        for (si, sg) in hr.sealed.iter().enumerate() {
-            if sg.evs.is_empty() { continue; }
-            for kind in ['e', 'p', 's'] {
-                let Ok(bytes) = std::fs::read(sg.dir.join(file_name(kind))) else { continue; };
-                let lay = layout(kind, &bytes);
-                muts.push((si, kind, St::Missing)); muts.push((si, kind, St::Empty)); muts.push((si, kind, St::Complete));
-                for p in cuts(lay, match kind { 'e' => 24, 'p' => 38, _ => 108 }, &mut r, thorough) { muts.push((si, kind, St::Prefix(p))); }
+    if a.tier == "gen" {
+        // child: histories [start, start + count) of the seed's sequence, until the deadline
+        let start: usize = a.rest[1].parse().unwrap();
+        let count: usize = a.rest[2].parse().unwrap();
+        let deadline: u64 = a.rest[3].parse().unwrap();
+        let mut rng = Rng::new(a.seed ^ 0xC06);
+        for i in 0..start + count {
+            let mut r = rng.fork();
+            if i < start { continue; }
+            if now_secs() >= deadline { break; }
+            let h = gen_history(&mut r, thorough);
+            let th = std::time::Instant::now();
+            let hr = run_history(&rt, h);
+            if std::env::var("SV_TIMING").is_ok() { eprintln!("history {i}: {} ops, {} sealed segments, {:?}", hr.h.ops.len(), hr.sealed.len(), th.elapsed()); }
+            if hr.sealed.is_empty() { let _ = std::fs::remove_dir_all(&hr.root); continue; }
+            // all (segment, file, state) of this history, shuffled
+            let mut muts: Vec<(usize, char, St)> = Vec::new();
+            for (si, sg) in hr.sealed.iter().enumerate() {
+                if sg.evs.is_empty() { continue; }
+                for kind in ['e', 'p', 's'] {
+                    let Ok(bytes) = std::fs::read(sg.dir.join(file_name(kind))) else { continue; };
+                    let lay = layout(kind, &bytes);
+                    muts.push((si, kind, St::Missing)); muts.push((si, kind, St::Empty)); muts.push((si, kind, St::Complete));
+                    for p in cuts(lay, match kind { 'e' => 24, 'p' => 38, _ => 108 }, &mut r, thorough) { muts.push((si, kind, St::Prefix(p))); }
+                }
             }
+            for i in (1..muts.len()).rev() { let j = r.below(i as u64 + 1) as usize; muts.swap(i, j); }
+            muts.truncate(per_hist);
+            // plus, once per history: the empty directory of the next segment
+            let with_events: Vec<usize> = (0..hr.sealed.len()).filter(|i| !hr.sealed[*i].evs.is_empty()).collect();
+            if !with_events.is_empty() { muts.push((*r.pick(&with_events), 'd', St::Complete)); }
+            for (si, kind, st) in &muts {
+                if now_secs() >= deadline { break; }
+                run_mutation(&rt, &hr, *si, *kind, st, &mut out);
+            }
+            let _ = std::fs::remove_dir_all(&hr.root);
         }
-        for i in (1..muts.len()).rev() { let j = r.below(i as u64 + 1) as usize; muts.swap(i, j); }
-        muts.truncate(per_hist.min(budget - n));
-        for (si, kind, st) in &muts {
-            if t0.elapsed().as_secs() >= secs { break; }
-            run_mutation(&rt, &hr, *si, *kind, st, &mut out); n += 1;
-        }
-        let _ = std::fs::remove_dir_all(&hr.root);
+        return;
+    }
+    // parent: every Database opened in a process leaves file descriptors behind, so the histories run in child
+    // processes of 6 histories each, until the case or time budget is used up
+    let budget: usize = std::env::var("SV_CASES").ok().and_then(|x| x.parse().ok()).unwrap_or(if thorough { 6000 } else { 300 });
+    let secs: u64 = std::env::var("SV_BUDGET_S").ok().and_then(|x| x.parse().ok()).unwrap_or(if thorough { 840 } else { 55 });
+    let deadline = now_secs() + secs;
+    let exe = std::env::current_exe().unwrap();
+    drop(out);
+    let mut n = 0usize;
+    let mut start = 0usize;
+    while n < budget && now_secs() < deadline && start < 100_000 {
+        let o = std::process::Command::new(&exe)
+            .args([a.prop.as_str(), "gen", &a.seed.to_string(), if thorough { "thorough" } else { "quick" }, &start.to_string(), "6", &deadline.to_string()])
+            .stderr(std::process::Stdio::inherit()).output().unwrap();
+        if !o.status.success() { eprintln!("c06: child process failed: {}", o.status); std::process::exit(o.status.code().unwrap_or(1)); }
+        let text = String::from_utf8_lossy(&o.stdout);
+        n += text.lines().count();
+        print!("{text}");
+        start += 6;
     }
 }
+
+fn now_secs() -> u64 { std::time::SystemTime::now().duration_since(std::time::UNIX_EPOCH).unwrap().as_secs() }
